@@ -209,14 +209,19 @@ func unmarshalIQ(ctx context.Context, iq xml.TokenReader, v interface{}, s *Sess
 	}
 	payload := xmlstream.Inner(resp)
 	d := xml.NewTokenDecoder(payload)
-	startTok, err := d.Token()
-	switch err {
-	case io.EOF:
-		return nil
-	case nil:
-	default:
-		return err
+	// Decode the first child element; anything else before it (eg. character
+	// data) is skipped and a response without a payload leaves v untouched.
+	for {
+		startTok, err := d.Token()
+		switch err {
+		case io.EOF:
+			return nil
+		case nil:
+		default:
+			return err
+		}
+		if payloadStart, ok := startTok.(xml.StartElement); ok {
+			return d.DecodeElement(v, &payloadStart)
+		}
 	}
-	start = startTok.(xml.StartElement)
-	return d.DecodeElement(v, &start)
 }
